@@ -34,6 +34,7 @@ theorem whole_sf_processMessage (env : PEnv) (orc : EvalOracles) (expr : Expr) (
     (hwf : pathjoin PATH_MAX md.root (subdirName md.subdir) = some md.path)
     (hfc : st.files.get md.path name = some content)
     (hl : w.lookup md.path name = some fid) (hf : w.file fid = some ⟨content, content⟩) (hc : WholeClean w)
+    (hfree : asksFree expr = true)
     (hvd : verdict env orc expr md.path name content = .act ml msgs fl) (hml : NoDiscard ml)
     (hdry : env.dryrun = false) (b : Bool) :
     wpS (processMessage env orc expr md name st)
@@ -48,7 +49,8 @@ theorem whole_sf_processMessage (env : PEnv) (orc : EvalOracles) (expr : Expr) (
     cases he
   | some ms =>
     have hv := msVerdict_of_parsed env orc expr md.path name content ms hpa
-    simp only [afterParse, hv, hvd, afterVerdict, hdry, Bool.false_eq_true, if_false]
+    rw [afterParse_asksFree env orc expr hfree]
+    simp only [hv, hvd, afterVerdict, hdry, Bool.false_eq_true, if_false]
     have hS := hst ms rfl (msgs 0) fl
     obtain ⟨sh, fid0, hA⟩ := hS.at
     have hname : ms.name = name := by
@@ -102,20 +104,23 @@ theorem whole_sf_processMessage (env : PEnv) (orc : EvalOracles) (expr : Expr) (
 
 /-- **No error bit means final place** (`runPlan` form, at most one fault): if `processMessage` on
 a registered, completely stored message on which the rules act (list `ml` without discard, not a dry
-run) returns a state without the error flag, the message is at its final place. -/
+run) returns a state without the error flag, the message is at its final place.  For rule trees that ask the
+operating system nothing (`asksFree`: no `command`, `isdirectory`, file-time `date` condition), where the verdict is
+the pure `verdict`. -/
 theorem whole_message_exit0 (env : PEnv) (orc : EvalOracles) (expr : Expr) (md : Maildir) (name : Bytes) (st : MainSt)
     (w : World) (plan : Plan) {d : Handle} {content : Bytes} {fid : Nat} {ml : MatchList} {msgs : Nat → Msg} {fl : MFlags}
     (hd : md.dirH = some d) (hp : w.dirPath d = some md.path)
     (hwf : pathjoin PATH_MAX md.root (subdirName md.subdir) = some md.path)
     (hfc : st.files.get md.path name = some content)
     (hl : w.lookup md.path name = some fid) (hf : w.file fid = some ⟨content, content⟩) (hc : WholeClean w)
+    (hfree : asksFree expr = true)
     (hvd : verdict env orc expr md.path name content = .act ml msgs fl) (hml : NoDiscard ml)
     (hdry : env.dryrun = false) (hpl : SingleFault plan)
     (he : (runPlan plan (processMessage env orc expr md name st) w 0 []).1.1.error = false) :
     WholeFinalPlace w md name content ml (msgs 0) (runPlan plan (processMessage env orc expr md name st) w 0 []).1
       (runPlan plan (processMessage env orc expr md name st) w 0 []).2.1 := by
   rw [World.runPlan_eq] at he ⊢
-  obtain ⟨b', h⟩ := wpS_sound plan (whole_sf_processMessage env orc expr md name st hd hp hwf hfc hl hf hc hvd hml hdry true)
+  obtain ⟨b', h⟩ := wpS_sound plan (whole_sf_processMessage env orc expr md name st hd hp hwf hfc hl hf hc hfree hvd hml hdry true)
     hpl.budget
   exact h he
 
